@@ -28,7 +28,10 @@ def run(res, f, tier):
             samples.append({"node": kind, "when": ["%s %s" % c for c in p["conds"]],
                             "events": [" ".join(str(x) for x in e) for e in p["events"] if e[0] in ("eval", "op", "next", "end")],
                             "result": p["ret"]})
+    import rewrite
+    rw_cov = rewrite.apply(res, f, "C05")
     res.coverage = {
+        "tree_rewrites": rw_cov,
         "explanation": "All acyclic paths of the recursive evaluator's coroutine body (MIR before the state-machine transform; "
                        "await loops collapsed; for-loops unrolled %d times) were enumerated by tag-symbolic abstract interpretation for each "
                        "of the %d node kinds, with operator functions opaque; the ordered evaluator invocations, operator/context calls, "
